@@ -12,6 +12,14 @@ import textwrap
 from . import builtins_sym as B
 
 
+class LoopBreak(Exception):
+    """`break` of a cut loop (caught by the cut itself)"""
+
+
+class LoopContinue(Exception):
+    """`continue` of a cut loop (caught by the cut itself)"""
+
+
 class Rewriter(ast.NodeTransformer):
     def __init__(self, log, loop_cuts=None, drop_calls=('print',), fname=''):
         self.log = log
@@ -170,17 +178,51 @@ class Rewriter(ast.NodeTransformer):
         post = ast.Expr(ast.Call(func=ast.Name(id='__loop_inv', ctx=ast.Load()),
                                  args=[ast.Constant(n), ast.Constant('preserve'), L()], keywords=[]))
         end = ast.Raise(exc=ast.Call(func=ast.Name(id='__PathEnd', ctx=ast.Load()), args=[], keywords=[]), cause=None)
+        # `break` / `continue` of THIS loop (not of loops nested in its body): break leaves for the code after the loop from the
+        # state reached in an arbitrary iteration; continue ends the iteration (the invariant must hold there)
+        has_jump = [False]
+
+        class _Jumps(ast.NodeTransformer):
+            def visit_For(self, nd): return nd
+            def visit_While(self, nd): return nd
+            def visit_FunctionDef(self, nd): return nd
+            def visit_Lambda(self, nd): return nd
+
+            def visit_Break(self, nd):
+                has_jump[0] = True
+                return ast.copy_location(ast.Raise(exc=ast.Call(func=ast.Name(id='__LoopBreak', ctx=ast.Load()), args=[], keywords=[]), cause=None), nd)
+
+            def visit_Continue(self, nd):
+                has_jump[0] = True
+                return ast.copy_location(ast.Raise(exc=ast.Call(func=ast.Name(id='__LoopContinue', ctx=ast.Load()), args=[], keywords=[]), cause=None), nd)
+        jbody = [_Jumps().visit(st) for st in node.body]
+        brk = '__brk_%d' % n
+
+        def guarded(stmts):
+            if not has_jump[0]:
+                return stmts + [post, end]
+            self._note('loop-break-continue-%d' % n, node)
+            t = ast.Try(body=stmts,
+                        handlers=[ast.ExceptHandler(type=ast.Name(id='__LoopContinue', ctx=ast.Load()), name=None, body=[ast.Pass()]),
+                                  ast.ExceptHandler(type=ast.Name(id='__LoopBreak', ctx=ast.Load()), name=None,
+                                                    body=[ast.Assign(targets=[ast.Name(id=brk, ctx=ast.Store())], value=ast.Constant(True)),
+                                                          # the sidecar is told: the loop is left from the middle of an iteration
+                                                          ast.Expr(ast.Call(func=ast.Name(id='__loop_inv', ctx=ast.Load()),
+                                                                            args=[ast.Constant(n), ast.Constant('break'), L()], keywords=[]))])],
+                        orelse=[], finalbody=[])
+            return [t, ast.If(test=ast.UnaryOp(op=ast.Not(), operand=ast.Name(id=brk, ctx=ast.Load())), body=[post, end], orelse=[])]
+        init = ast.Assign(targets=[ast.Name(id=brk, ctx=ast.Store())], value=ast.Constant(False))
         if isinstance(node, ast.While):
-            body = ast.If(test=node.test, body=node.body + [post, end], orelse=[])
-            out = [pre, hav, body]
+            body = ast.If(test=node.test, body=guarded(jbody), orelse=[])
+            out = [pre, hav, init, body]
         else:
             more = ast.Call(func=ast.Name(id='__loop_more', ctx=ast.Load()), args=[ast.Constant(n)], keywords=[])
             item = ast.Assign(targets=[node.target],
                               value=ast.Call(func=ast.Name(id='__loop_item', ctx=ast.Load()), args=[ast.Constant(n), node.iter], keywords=[]))
             if node.orelse:
                 raise NotImplementedError('for-else cut')
-            body = ast.If(test=more, body=[item] + node.body + [post, end], orelse=[])
-            out = [pre, hav, body]
+            body = ast.If(test=more, body=[item] + guarded(jbody), orelse=[])
+            out = [pre, hav, init, body]
         return [ast.fix_missing_locations(ast.copy_location(x, node)) for x in out]
 
     def visit_While(self, node):
@@ -288,6 +330,8 @@ def instrument(func, shadows=None, loop_cuts=None, extra_globals=None, drop_call
     else:
         g = dict(func.__globals__)
         g.update(B.SHADOWS)
+        g['__LoopBreak'] = LoopBreak
+        g['__LoopContinue'] = LoopContinue
         # a module that imported decimal.Decimal by name gets the proxy-aware constructor (concrete arguments: the real class)
         import decimal as _decimal
         for _n, _v in list(g.items()):
